@@ -414,7 +414,7 @@ func runC15(r *engine.Run) {
 	r.Rule = "E2 explicit-state breadth-first search per band (14 names) from the constructor state over AddChannel with four argument kinds {fresh frequency with the CFList DR range, fresh frequency 6..6, an existing standard frequency 6..6, frequency 0 (placeholder) 0..5} and Disable/Enable with index in {-1, 0, last standard, first custom, n-1, n} (fixed plans: {-1,0,7,8,15,16,63,64,71,72,95,96}); depth quick 4 / thorough 6 (fixed plans 3); canonical state = hook snapshot of both channel slices; successor = replay of the shortest path on a fresh instance + one op. The reference model (a Go slice of {freq,min,max,enabled,custom}) is stepped in lock-step: after every transition the op's error/no-error and the snapshot must equal the model; in every distinct state all observers are compared with the model (index sets and partitions, accessors with invalid indices, lookups by frequency and frequency+DR, GetCFList for 7 versions) and every frequency/DR/CFList the band produces is fed to the MAC encoders (RXParamSetupReq, NewChannelReq, DLChannelReq, PingSlotChannelReq, BeaconFreqReq, CFList in a join-accept) and decoded back."
 	r.Assume("canonical state = both channel slices: every band method reads only these plus tables that are immutable after construction (argued in DESIGN.md A.2), so equal snapshots have equal futures")
 	r.Assume("a custom channel with frequency 0 placed first makes the library offer no CFList at all; the property does not define that case: recorded, not judged")
-	r.Assume("depth-bounded: 4 (quick) / 6 (thorough) operations; the five-entry CFList cap needs 6 additions and is reached in the thorough tier and by a directed deep history in both tiers")
+	r.Assume("depth-bounded: 4 (quick) / 6 (thorough) operations; the five-entry CFList cap needs 6 additions and is reached in the thorough tier and by a directed deep history in both tiers; histories of 32 (thorough 36) operations are explored with a bounded number of deviations from two spines (deep-deviations)")
 
 	for _, name := range bandNames {
 		cfg := bandCfg{name, false, lorawan.DwellTimeNoLimit}
@@ -543,6 +543,72 @@ func runC15(r *engine.Run) {
 					env.checkState(c, b, path)
 				}
 				c.Outcome("deep/7-custom-channels")
+			})
+			// long histories with a bounded number of deviations (the quantifier's "sequences up to
+			// length ~30"; breadth-first search cannot reach them): a spine of L additions of one kind
+			// (CFList-capable channels / channels with another data-rate range) in which one position
+			// (thorough: two) is replaced by any other operation of the alphabet; every transition is
+			// compared with the model, every state from the first deviation on is checked in full
+			L := 32
+			if r.Thorough() {
+				L = 36
+			}
+			nOps := len(env.ops)
+			type devPath struct {
+				spine int
+				pos   [2]int
+				op    [2]int
+			}
+			var plans []devPath
+			for spine := 0; spine < 2; spine++ {
+				plans = append(plans, devPath{spine: spine, pos: [2]int{-1, -1}})
+				for p1 := 0; p1 < L; p1++ {
+					for o1 := 0; o1 < nOps; o1++ {
+						if o1 == spine {
+							continue
+						}
+						plans = append(plans, devPath{spine: spine, pos: [2]int{p1, -1}, op: [2]int{o1, 0}})
+						if r.Thorough() {
+							for p2 := p1 + 1; p2 < L; p2 += 6 {
+								for o2 := 0; o2 < nOps && o2 < 8; o2++ {
+									if o2 != spine {
+										plans = append(plans, devPath{spine: spine, pos: [2]int{p1, p2}, op: [2]int{o1, o2}})
+									}
+								}
+							}
+						}
+					}
+				}
+			}
+			r.PartDims("deep-deviations/"+string(name), []string{"spine{Add#0 x L, Add#1 x L}", fmt.Sprintf("L=%d", L), fmt.Sprintf("deviation position x operation:%d x %d (thorough: two deviations, the second at every sixth later position over the first eight operations)", L, nOps-1)}, uint64(len(plans)), func(c *engine.Case) {
+				pl := plans[c.Index]
+				path := make([]int, L)
+				for i := range path {
+					path[i] = pl.spine
+				}
+				first := L
+				for k := 0; k < 2; k++ {
+					if pl.pos[k] >= 0 {
+						path[pl.pos[k]] = pl.op[k]
+						if pl.pos[k] < first {
+							first = pl.pos[k]
+						}
+					}
+				}
+				if pl.pos[0] < 0 {
+					first = 0 // the pure spine: every state
+				}
+				b := newBand(cfg)
+				bandWarm(b)
+				for i, o := range path {
+					res := env.do(b, o)
+					x.Check(c, b, path[:i+1], res)
+					if i >= first {
+						env.checkState(c, b, path[:i+1])
+					}
+					bandWarm(b)
+				}
+				c.Outcome("deep-deviations/history-completed")
 			})
 		}
 	}
